@@ -35,7 +35,8 @@ m['confirmed_by']="tools/seedcheck.sh: scratch worktree of /repo HEAD; demo pass
 json.dump(m,open(sys.argv[2],'w'),indent=1)
 PY
 # run the property's check against the changed tree
-OUT=$(timeout 900 bin/gvc check --repo "$WT" --verif /tmp/seedverif-$NAME --property "$PROP" 2>&1 | grep -E "VIOLATION|FAULT|quick:" | sed "s|/tmp/seedverif-$NAME||" | head -8)
+mkdir -p /tmp/seedverif-$NAME && cp /verif/known_findings.json /tmp/seedverif-$NAME/
+OUT=$(timeout 1500 bin/gvc check --repo "$WT" --verif /tmp/seedverif-$NAME --property "$PROP" 2>&1 | grep -E "VIOLATION|FAULT|quick:" | sed "s|/tmp/seedverif-$NAME||" | head -8)
 rm -rf /tmp/seedverif-$NAME
 echo "$OUT" | sed "s/^/$NAME:   /"
 if echo "$OUT" | grep -q VIOLATION; then echo "$NAME: CAUGHT"; else echo "$NAME: MISSED"; fi
